@@ -407,6 +407,13 @@ example :
     p.safeConj NOW0 = true ∧ dataOK NOW0 p.text DS0 = true ∧
     (readSet (extract NOW0 p.text) DS0).length = 2 ∧ (runFull NOW0 σ0 p DS0).length = 3 := by decide
 
+/-- non-vacuity of C18_cached_partial: a flush adds a file to the already known hour 10 after the plan was cached. -/
+example :
+    let p := Pred.and (timeCmp .ge (litAt 10 0)) (timeCmp .lt (litAt 11 30))
+    let ds1 : Dataset := DS0 ++ [hourFile 10 [45]]
+    p.safeConj NOW0 = true ∧ dataOK NOW0 p.text ds1 = true ∧ WellPlaced ds1 ∧
+    (∀ f ∈ ds1, ∃ f0 ∈ DS0, f0.part = f.part) ∧ (runCached NOW0 σ0 p DS0 ds1).length = 4 := by decide
+
 /-! ## (3) one counterexample per excluded class (the full statement instantiated, refuted by evaluation) -/
 
 /-- OR around a time atom: `time >= '11:00' OR v >= 0` — the regexes do not see the OR; the start-only range
